@@ -400,6 +400,37 @@ def run(chk: Check) -> None:
                      {"fields": fields, "files": [(a, b.hex(), c, d) for a, b, c, d in files], "boundary": b2, "got": str(got2)[:300]})
         chk.count("e2e")
 
+    # ---------------- per-part charset of a text field (Content-Type: text/plain; charset=...): the field text survives for every
+    # spelling of the four charsets the parser honours (ascii, us-ascii, utf-8, iso-8859-1; any letter case, quoted or not);
+    # any other charset is read as UTF-8 with replacement
+    import codecs as _codecs
+    honoured = {"ascii": "ascii", "us-ascii": "ascii", "utf-8": "utf-8", "iso-8859-1": "latin-1"}
+    texts = ["plain", "caf\u00e9 \u00fc\u00df", "\u20ac uro \U0001f600", "", "a\u00e9" * 30]
+    spellings = ["utf-8", "UTF-8", "Utf-8", "iso-8859-1", "ISO-8859-1", "Iso-8859-1", "us-ascii", "US-ASCII", "ascii", "ASCII",
+                 '"iso-8859-1"', '"ISO-8859-1"', "latin-1", "utf-16", "cp1252", "ISO-8859-15", ""]
+    for sp in spellings:
+        for text in texts:
+            name = sp.strip('"').lower()
+            enc = honoured.get(name)
+            try:
+                raw = text.encode(enc) if enc else text.encode("utf-8")
+            except UnicodeEncodeError:
+                continue
+            want = raw.decode(enc) if enc and enc != "ascii" else raw.decode("utf-8", "replace")
+            if enc == "ascii":
+                want = raw.decode("ascii")
+            ctype = "text/plain" + (f"; charset={sp}" if sp else "")
+            body = (b"--B\r\nContent-Disposition: form-data; name=\"t\"\r\nContent-Type: " + ctype.encode() + b"\r\n\r\n" + raw
+                    + b"\r\n--B--\r\n")
+            try:
+                form, _ = MultiPartParser(buffer_size=rng.choice([1, 5, 1 << 16])).parse(io.BytesIO(body), b"B", len(body))
+                got = form.get("t")
+            except Exception as e:  # noqa: BLE001
+                got = repr(e)
+            if got != want:
+                chk.fail("part-charset", f"text field sent as {ctype!r}: parsed {got!r}, expected {want!r}", {"content_type": ctype, "text": text})
+            chk.case(("charset", sp, text), True)
+
     # ---------------- sizes at the library's internal thresholds: 16384 (the encoder's read size), 65536 (the form parser's
     # default buffer), 1024*500 (stream_encode_multipart's spill-over to a temporary file and the SpooledTemporaryFile limit of
     # default_stream_factory): byte-exact contents on both sides of each, through both end-to-end routes
